@@ -28,22 +28,39 @@ ASSUMPTIONS = ['reference interpreter vf/model.py is trusted for (b)']
 
 SOURCES = harness.SOURCE_ORDER
 FORMS = ['var', 'entity', 'expr', 'if', 'in', 'sub', 'sub-default',
-         'let-name', 'with-only']
-KINDS = ['plain', 'rec', 'tmpl']
+         'let-name', 'with-only', 'sub-default-equal-map',
+         'sub-default-equal-sub', 'sub-default-self']
+KINDS = ['plain', 'rec', 'tmpl', 'rec-keyerror', 'rec-nameerror',
+         'tmpl-undef']
+# values whose evaluation fails: the highest-priority source still *defines*
+# the name, so the failure propagates (no fall-through to a lower source)
+RAISING = {'rec-keyerror': 'KeyError', 'rec-nameerror': 'NameError',
+           'tmpl-undef': 'KeyError'}
 
 
 def value(kind, tag, form):
     s = 'S:' + tag
     if form == 'in':
+        if kind in RAISING:
+            return None
         if kind == 'plain':
             return dict(t='list', items=[s, s + '2'])
         if kind == 'rec':
             return dict(t='rec', id=tag, ret=dict(t='list', items=[s]))
         return None
+    if kind in RAISING and form in ('in', 'expr'):
+        return None
     if kind == 'plain':
         return s
     if kind == 'rec':
         return dict(t='rec', id=tag, ret=s)
+    if kind in ('rec-keyerror', 'rec-nameerror'):
+        return dict(t='rec', id=tag, ret=s, raises=RAISING[kind])
+    if kind == 'tmpl-undef':
+        return dict(t='tmpl', ast=[
+            dict(k='text', s='T:' + tag),
+            dict(k='var', ref=dict(r='name', n='undefined_' + tag),
+                 opts=[])], defaults={})
     return dict(t='tmpl', ast=[dict(k='text', s='T:' + tag)], defaults={})
 
 
@@ -83,6 +100,13 @@ def source_text(form):
         'let-name': '[<dtml-let q=nn><dtml-var q></dtml-let>]',
         'with-only': '[<dtml-with wo only><dtml-var other missing="">'
                      '</dtml-with><dtml-var nn>]',
+        # a mapping equal to the sub-template's defaults is already on the
+        # namespace, a let rebinds the name, then the sub-template is called
+        'sub-default-equal-map': '[<dtml-with eqmap mapping><dtml-let '
+                                 'nn="\'LET\'"><dtml-var subd></dtml-let>'
+                                 '</dtml-with>]',
+        'sub-default-equal-sub': '[<dtml-var suba>]',
+        'sub-default-self': '[<dtml-var subs>]',
     }[form]
 
 
@@ -135,17 +159,58 @@ def run_enum(case):
     if value(kind, winner, form) is None:
         return 'skip'
     src = source_text(form)
-    if form != 'sub-default':
+    if not form.startswith('sub-default') and kind not in RAISING:
         exp_text, exp_log = expected(kind, winner, form)
-    if form == 'sub-default':
-        sources['ctor_map']['subd'] = dict(
-            t='tmpl', ast=[dict(k='var', ref=dict(r='name', n='nn'),
-                                opts=[])],
-            defaults=dict(nn='SUBDEFAULT'))
-        exp_text, exp_log = '[SUBDEFAULT]', []
+    if form.startswith('sub-default'):
+        if kind != 'plain' and form != 'sub-default':
+            return 'skip'
+        var_nn = dict(k='var', ref=dict(r='name', n='nn'), opts=[])
+        low = sources['ctor_map']
+        low['subd'] = dict(t='tmpl', ast=[var_nn],
+                           defaults=dict(nn='SUBDEFAULT'))
+        low['eqmap'] = dict(t='dict', items=dict(nn='SUBDEFAULT'))
+        let = dict(k='let', binds=[['nn', dict(r='expr', e=dict(
+            e='lit', v='LET'))]], eol=['', ''])
+        # another template with equal defaults calls subd below a let
+        low['suba'] = dict(t='tmpl', defaults=dict(nn='SUBDEFAULT'), ast=[
+            var_nn, dict(k='text', s='/'),
+            dict(let, body=[dict(k='var', ref=dict(r='name', n='subd'),
+                                 opts=[])])])
+        # a template that calls itself (once) below a let
+        low['subs'] = dict(t='tmpl', defaults=dict(nn='SUBDEFAULT'), ast=[
+            var_nn, dict(k='if', conds=[dict(r='name', n='again')],
+                         bodies=[[]], eol=['', '', ''], **{'else': [
+                             dict(k='text', s='/'), dict(let, binds=let[
+                                 'binds'] + [['again', dict(r='expr', e=dict(
+                                     e='lit', v=1))]], body=[dict(
+                                         k='var', ref=dict(r='name',
+                                                           n='subs'),
+                                         opts=[])])]})])
+        exp_text, exp_log = {
+            'sub-default': '[SUBDEFAULT]',
+            'sub-default-equal-map': '[SUBDEFAULT]',
+            'sub-default-equal-sub': '[SUBDEFAULT/SUBDEFAULT]',
+            'sub-default-self': '[SUBDEFAULT/SUBDEFAULT]'}[form], []
     out, world = harness.run_impl_sources(src, 'dtml', sources)
     no = harness.norm_outcome(out)
     log = [list(x) for x in world.log]
+    if kind in RAISING and not form.startswith('sub-default'):
+        exp_log = [['call', winner]] if kind.startswith('rec') else []
+        if no[:2] != ['raise', RAISING[kind]]:
+            return ('precedence:failing-value-skipped:%s' % form,
+                    'sources %s define nn; the winner %r holds a value whose '
+                    'evaluation raises %s: %r gave %r, expected that '
+                    'exception' % (subset, winner, RAISING[kind], src, no))
+        if kind == 'tmpl-undef' and 'undefined_' + winner not in no[2]:
+            return ('precedence:failing-value-skipped:%s' % form,
+                    '%r with %s: KeyError %r does not name the undefined '
+                    'name of the winning template (%s)' % (
+                        src, subset, no[2], winner))
+        if log != exp_log:
+            return ('precedence:calls:%s' % form,
+                    '%r with %s: calls %r, expected %r' % (src, subset, log,
+                                                           exp_log))
+        return None
     if no != ['text', exp_text]:
         got = no[1] if no[0] == 'text' else no
         which = 'exception' if no[0] == 'raise' else 'wrong-source'
